@@ -48,6 +48,88 @@ type wrap[E any] struct {
 	l    glist[E]
 	c    codec[E]
 	kept [][]E
+	// the iteration methods of the plain lists (Each, Map, Select, Any, All, Find), each driven by one callback that
+	// says whether to go on looking (the Safe wrappers have none: nil)
+	iters map[string]func(f func(int, E))
+}
+
+// the methods of the three lists that take a callback
+type enumerable[E any, L any] interface {
+	Each(f func(index int, value E))
+	Map(f func(index int, value E) E) L
+	Select(f func(index int, value E) bool) L
+	Any(f func(index int, value E) bool) bool
+	All(f func(index int, value E) bool) bool
+	Find(f func(index int, value E) bool) (int, E)
+}
+
+var iterNames = []string{"Each", "Map", "Select", "Any", "All", "Find"}
+
+// itersOf: every method visits every element (Any/Find are told "no", All/Select "yes")
+func itersOf[E any, L any](x enumerable[E, L]) map[string]func(f func(int, E)) {
+	return map[string]func(f func(int, E)){
+		"Each":   func(f func(int, E)) { x.Each(f) },
+		"Map":    func(f func(int, E)) { x.Map(func(i int, v E) E { f(i, v); return v }) },
+		"Select": func(f func(int, E)) { x.Select(func(i int, v E) bool { f(i, v); return true }) },
+		"Any":    func(f func(int, E)) { x.Any(func(i int, v E) bool { f(i, v); return false }) },
+		"All":    func(f func(int, E)) { x.All(func(i int, v E) bool { f(i, v); return true }) },
+		"Find":   func(f func(int, E)) { x.Find(func(i int, v E) bool { f(i, v); return false }) },
+	}
+}
+
+func newAL[E any](c codec[E]) list {
+	l := arraylist.New[E]()
+	return wrapA[E]{&wrap[E]{l: l, c: c, iters: itersOf[E, *arraylist.List[E]](l)}}
+}
+func newDL[E any](c codec[E]) list {
+	l := doublylinkedlist.New[E]()
+	return &wrap[E]{l: l, c: c, iters: itersOf[E, *doublylinkedlist.List[E]](l)}
+}
+func newSL[E any](c codec[E]) list {
+	l := singlylinkedlist.New[E]()
+	return &wrap[E]{l: l, c: c, iters: itersOf[E, *singlylinkedlist.List[E]](l)}
+}
+
+type cbPanic struct{} // what the harness's callbacks panic with
+
+// SortObserved sorts with a comparator that reads the list (Values(), by content class) at every invocation and
+// panics at invocation number panicAt (never if negative). The caller recovers.
+func (w *wrap[E]) SortObserved(panicAt int, during *[][]int) {
+	n := 0
+	w.l.Sort(func(a, b E) int {
+		*during = append(*during, w.decs(w.l.Values()))
+		if n == panicAt {
+			panic(cbPanic{})
+		}
+		n++
+		x, y := w.c.dec(a), w.c.dec(b)
+		switch {
+		case x < y:
+			return -1
+		case x > y:
+			return 1
+		}
+		return 0
+	})
+}
+
+// Iterate runs one of the callback-taking methods; the callback records its value argument and what the list
+// reports at that moment, and panics at invocation number panicAt (never if negative). false: no such method here.
+func (w *wrap[E]) Iterate(name string, panicAt int, seen *[]int, during *[][]int) bool {
+	it, ok := w.iters[name]
+	if !ok {
+		return false
+	}
+	n := 0
+	it(func(i int, v E) {
+		*seen = append(*seen, w.c.dec(v))
+		*during = append(*during, w.decs(w.l.Values()))
+		if n == panicAt {
+			panic(cbPanic{})
+		}
+		n++
+	})
+	return true
 }
 
 const sentinel = 77 // a content class that is never stored and never searched for
@@ -153,9 +235,9 @@ func (w wrapA[E]) VerifBacking() []int {
 
 func kindsOf[E any](tag string, c codec[E]) []kind {
 	return []kind{
-		{name: "arraylist<" + tag + ">", coq: "KArray", other: true, mk: func() list { return wrapA[E]{&wrap[E]{l: arraylist.New[E](), c: c}} }},
-		{name: "doublylinkedlist<" + tag + ">", coq: "KDList", other: true, mk: func() list { return &wrap[E]{l: doublylinkedlist.New[E](), c: c} }},
-		{name: "singlylinkedlist<" + tag + ">", coq: "KSList", other: true, mk: func() list { return &wrap[E]{l: singlylinkedlist.New[E](), c: c} }},
+		{name: "arraylist<" + tag + ">", coq: "KArray", other: true, mk: func() list { return newAL(c) }},
+		{name: "doublylinkedlist<" + tag + ">", coq: "KDList", other: true, mk: func() list { return newDL(c) }},
+		{name: "singlylinkedlist<" + tag + ">", coq: "KSList", other: true, mk: func() list { return newSL(c) }},
 		{name: "singlylinkedlist.Safe<" + tag + ">", coq: "KSList", other: true, safe: true, mk: func() list { return &wrap[E]{l: singlylinkedlist.NewSafe[E](), c: c} }},
 	}
 }
